@@ -28,6 +28,8 @@ STD_PURE_LAST = {
     ("core::ops::index::", "index"), ("core::ops::deref::", "deref"),
     ("core::ops::try_trait::", "branch"), ("core::ops::try_trait::", "from_residual"),
     ("core::clone::", "clone"),
+    ("memmap2::", "len"), ("memmap2::", "as_ptr"), ("memmap2::", "as_mut_ptr"),
+    ("std::sync::poison::rwlock::", "deref"), ("std::sync::poison::mutex::", "deref"),
 }
 
 
